@@ -255,19 +255,41 @@ def run(ctx):
         C.anchor_missing('C09-MUST-restrict', 'merge_sub_elements: recursive merge / membership insert')
     else:
         loopb = [body for h, body in msub.natural_loops() if rec[0][0] in body]
+        # roles of the parameters by TYPE (not by name): the inherited file set is the HashSet<WeakArxmlFile> parameter, the file being loaded
+        # the plain WeakArxmlFile parameter
+        from flow import source_locals as _sl
+        p_files = {l for l in range(1, msub.argc + 1) if re.search(r'HashSet<(\w+::)*WeakArxmlFile', msub.local_ty(l) or '')}
+        p_new = {l for l in range(1, msub.argc + 1) if re.search(r'WeakArxmlFile', msub.local_ty(l) or '') and l not in p_files}
+        def from_params(o, ps):
+            return bool(_sl(msub, o, depth=14) & ps) if is_local_op(o) else False
+        def wide_from(o, ps, depth=4):
+            """also through clone()/deref()/as_ref() calls"""
+            if not is_local_op(o) or depth == 0:
+                return False
+            if from_params(o, ps):
+                return True
+            from flow import defs_of as _do
+            for l_ in _sl(msub, o, depth=14):
+                for q_, d_ in _do(msub, l_):
+                    if d_['k'] == 'call' and d_['args'] and call_matches(d_, r'Clone>::clone$|Deref>::deref$|::as_ref$|Borrow<.*>>::borrow$|ToOwned>::to_owned$'):
+                        if wide_from(d_['args'][0], ps, depth - 1):
+                            return True
+            return False
         hdr = iteration_start(msub, rec[0])
         for i, m in enumerate(mins):
             after = rec[0] not in msub.reach_from(m, avoid={hdr})
             emp = [q for q in calls(msub, r'HashSet::<T, S, A>::is_empty$') if 'ElementRaw.file_membership' in deep_sources(msub, msub.blocks[q[0]]['term']['args'][0], depth=10)[2]]
             g = any(guarded_by_true(msub, m, q, negate=True) for q in emp)
-            nf = 'new_file' in deep_sources(msub, msub.blocks[m[0]]['term']['args'][1], depth=8)[0]
+            nf = wide_from(msub.blocks[m[0]]['term']['args'][1], p_new)
             C.check(after, 'C09-MUST-restrict', 'merge_sub_elements|new-file-added-after-recursion#%d' % i, 'the merged element\'s own file set gains the new file BEFORE its children are merged: children that exist only in the model inherit/are stamped with a set that contains the file being loaded, which never contained them',
                     msub.where(m), sample={'fn': 'merge_sub_elements', 'order': 'merge_element(elem_a, files_before, ..) then membership.insert(new_file)'})
             C.check(g and nf, 'C09-MUST-restrict', 'merge_sub_elements|only-local-sets-are-extended#%d' % i, 'the new file is added to an empty (inherited) file set or something else than the new file is added', msub.where(m))
         # the files argument of the recursion: the element's own set or the inherited one, never touched by new_file
         t = msub.blocks[rec[0][0]]['term']
         n_, c_, f_ = deep_sources(msub, t['args'][1], depth=12)
-        C.check(('files' in n_) and 'new_file' not in n_, 'C09-MUST-restrict', 'merge_sub_elements|recursion-gets-files-before-merge', 'the file set handed to the recursive merge is not the set of files the element was in before the merge', msub.where(rec[0]))
+        # (either the inherited set parameter or the element's own local set; never derived from the file being loaded)
+        own_set = 'ElementRaw.file_membership' in f_
+        C.check((wide_from(t['args'][1], p_files) or own_set) and not wide_from(t['args'][1], p_new), 'C09-MUST-restrict', 'merge_sub_elements|recursion-gets-files-before-merge', 'the file set handed to the recursive merge is not the set of files the element was in before the merge', msub.where(rec[0]))
         own_set_rule(C, P, 'C09-MUST-restrict')
         C.check(bool(loopb), 'C09-MUST-restrict', 'merge_sub_elements|every-pair-is-merged', 'merge_sub_elements does not merge every pair (no loop around merge_element)')
     # merge_file_data: root gains new_file after success
